@@ -1,0 +1,29 @@
+//! Scheduling points for the model-checking harness in `/verif` (feature `verif-hooks`).
+//!
+//! With the feature off this module does not exist and `vp_sched!` expands to nothing.
+//! With the feature on but no hook installed on the calling thread, a scheduling point is
+//! a thread-local read and nothing else.
+
+use std::cell::RefCell;
+use std::sync::Arc;
+
+/// Callback invoked at every scheduling point of the installing thread.
+pub type Hook = Arc<dyn Fn(&'static str) + Send + Sync>;
+
+thread_local! {
+    static HOOK: RefCell<Option<Hook>> = const { RefCell::new(None) };
+}
+
+/// Install (or with `None` remove) the scheduling hook of the calling thread.
+pub fn install(hook: Option<Hook>) {
+    HOOK.with(|c| *c.borrow_mut() = hook);
+}
+
+/// A scheduling point: hands control to the installed hook, if any.
+#[inline]
+pub fn sched_point(site: &'static str) {
+    let hook = HOOK.with(|c| c.borrow().clone());
+    if let Some(hook) = hook {
+        hook(site);
+    }
+}
